@@ -73,7 +73,7 @@ def extract(repo, p, q):
         return None, "expected one period count k = round(...), found %d" % len(rounds)
     rc = rounds.pop()
     X = rc[2]
-    Y = T.call("Epoch.year", ("epoch", T.sym("E")))
+    Y = T.call("Epoch.Epoch.year", ("epoch", T.sym("E")))
     # X = c * (365.2425*Y + c0)
     c, rest = T.split_coeff(X)
     info = {"rc": rc, "S": S}
@@ -196,7 +196,7 @@ def run(repo, rep, tier):
             fn = repo.func(p, "%s.%s" % (p, q))
             ename = fn.args.args[0].arg
             outs = outcomes(repo, p, "%s.%s" % (p, q), arg_terms={ename: ("epoch", T.sym("E"))})
-            isyear = lambda t: t == T.call("Epoch.year", ("epoch", T.sym("E")))
+            isyear = lambda t: t == T.call("Epoch.Epoch.year", ("epoch", T.sym("E")))
             ok, msg = refusal_check(outs, "ValueError", [cmp_is("Lt", isyear, -2000), cmp_is("Gt", isyear, 4000)], "year < -2000 or year > 4000")
             if ok:
                 rep.ok("R-RANGE-REFUSE", site, msg, sample=(n_f <= 2))
@@ -281,7 +281,7 @@ def perihelion(repo, rep):
         fn = repo.func(p, q)
         names = [a.arg for a in fn.args.args]
         t = ret_term(repo, p, q, arg_terms={names[0]: ("epoch", T.sym("E")), names[1]: T.sym("PERI")})
-        Y = T.call("Epoch.year", ("epoch", T.sym("E")))
+        Y = T.call("Epoch.Epoch.year", ("epoch", T.sym("E")))
         # k = phi(PERI ? round(A) : round(A + 0.5) - 0.5)
         ks = [x for x in T.walk(t) if x[0] == "phi" and x[1] == T.sym("PERI") and find_calls(x[2], "round") and find_calls(x[3], "round")]
         ks = [x for x in ks if x[2][0] == "call" and x[2][1] == "round"]
